@@ -690,6 +690,7 @@ def _short(o):
 # pool plumbing: graphs live in module globals so that forked workers see them without pickling
 # ------------------------------------------------------------------------------------------------------------
 _G = {}
+_D = {}
 _WORK = [None]
 
 
@@ -718,7 +719,10 @@ def _edge_job(item):
 
 
 def _sim_job(item):
-    name, desc, states = item
+    name, fn = item
+    desc = _D[name]
+    states = [s for _, s in tlaparse.parse_sim_file(fn)]
+    os.remove(fn)
     sched_ = [s["last"]["p"] for s in states[1:]]
     r = run_schedule(desc, states[1:], sched_, _WORK[0])
     r["item"] = (name, "sim", len(sched_))
@@ -844,13 +848,18 @@ def run(ctx):
 
     # ---- model sanity: the broken protocols must be REJECTED by TLC ----------------------------------------------
     sanity = {}
-    for scn, off, inv in [("init_same", {"MkdirExistOk": False}, "NoActorError"),
-                          ("init_same_nows", {"MkdirExistOk": False}, "NoActorError"),
-                          ("init_same", {"SaveIfAbsent": False, "AtomicWrite": False}, "NoTornObservation"),
-                          ("init_same", {"ValidateAfterWrite": False, "AtomicWrite": False}, "NoTornObservation"),
-                          ("reader_sees", {"AtomicWrite": False}, "NoTornObservation"),
-                          ("list_nows", {"ListTolerant": False}, "NoActorError")]:
-        r = tlc.run(SPEC, cfg_text=cfg_text(scn, invariants=[inv], **off), workdir=os.path.join(ctx.work, "tlc_sanity"), workers=2, allow_violation=True, coverage=False)
+    broken = [("init_same", {"MkdirExistOk": False}, "NoActorError"),
+              ("init_same_nows", {"MkdirExistOk": False}, "NoActorError"),
+              ("init_same", {"SaveIfAbsent": False, "AtomicWrite": False}, "NoTornObservation"),
+              ("init_same", {"ValidateAfterWrite": False, "AtomicWrite": False}, "NoTornObservation"),
+              ("reader_sees", {"AtomicWrite": False}, "NoTornObservation"),
+              ("list_nows", {"ListTolerant": False}, "NoActorError")]
+
+    def broken_run(x):
+        scn, off, inv = x
+        return tlc.run(SPEC, cfg_text=cfg_text(scn, invariants=[inv], **off), workdir=os.path.join(ctx.work, "tlc_sanity_%d" % broken.index(x)),
+                       workers=2, allow_violation=True, coverage=False)
+    for (scn, off, inv), r in zip(broken, _threads(broken_run, broken, 3)):
         key = "%s with %s" % (scn, ",".join("%s=FALSE" % k for k in off))
         if r.violation is None or r.violation["name"] != inv:
             raise core.MachineryError("model sanity: TLC did not find %s violated on %s" % (inv, key))
@@ -892,11 +901,15 @@ def run(ctx):
             items += [(name, i, tuple(path), "path", 0) for i, path in enumerate(g.path_cover())]
             extra = rnd.sample(g.edges, min(len(g.edges), 60))
             items += [(name, u, p, "rnd", rnd.randrange(1 << 30)) for (u, p) in extra]
+        elif len(desc_by_name[name]["script"]) > 2:
+            # thorough, three actors (tens of thousands of edges): complete schedules that together take every edge
+            items += [(name, i, tuple(path), "path", 0) for i, path in enumerate(g.path_cover())]
         else:
-            # one schedule per edge (shortest path), and for two actors two further random paths to the same edge
+            # thorough, two actors: one schedule per edge (shortest path to its source, the edge, round-robin completion);
+            # for the built-in scenarios two further schedules per edge over random paths to its source
             for (u, p) in g.edges:
                 items.append((name, u, p, "bfs", 0))
-                if len(desc_by_name[name]["script"]) == 2:
+                if name in TWO:
                     for kx in range(2):
                         items.append((name, u, p, "rnd", rnd.randrange(1 << 30)))
     results = core.pmap(_edge_job, items, procs=nproc)
@@ -922,39 +935,35 @@ def run(ctx):
     phase("edge schedules on real processes")
     # ---- three actors: TLC decides all interleavings; -simulate behaviours are replayed -----------------------
     sims = []
-    for name in THREE:
-        if not ctx.quick or name == "init_same_3":
-            if name not in desc_by_name:
-                r = tlc.run(SPEC, cfg_text=cfg_text(name), workdir=os.path.join(ctx.work, "tlc_" + name), workers=nproc, allow_violation=True)
-                ctx.add_tlc("all interleavings of %s (3 actors, no dump)" % name, r)
-                desc = parse_describe(r.stdout)
-                if r.violation is not None:
-                    replay_counterexample(ctx, name, desc, r)
+
+    def three(name):
+        out = []
+        if (not ctx.quick or name == "init_same_3") and name not in desc_by_name:
+            r = tlc.run(SPEC, cfg_text=cfg_text(name), workdir=os.path.join(ctx.work, "tlc_" + name), workers=max(2, nproc // 2), allow_violation=True)
+            out.append(("all interleavings of %s (3 actors, no dump)" % name, r))
         n = 150 if ctx.quick else 2500
         pref = os.path.join(ctx.work, "sim_" + name)
         r = tlc.run(SPEC, cfg_text=cfg_text(name), workdir=os.path.join(ctx.work, "tlcsim_" + name), workers=1, simulate="file=%s,num=%d" % (pref, n),
                     depth=200, seed=ctx.seed % 10**6, allow_violation=True)
-        ctx.add_tlc("-simulate %d behaviours of %s" % (n, name), r)
-        desc = parse_describe(r.stdout)
-        desc_by_name[name] = desc
+        out.append(("-simulate %d behaviours of %s" % (n, name), r))
+        return name, out, pref
+    for name, runs, pref in _threads(three, THREE, 3):
+        for what, r in runs:
+            ctx.add_tlc(what, r)
+            desc = parse_describe(r.stdout)
+            if r.violation is not None:
+                replay_counterexample(ctx, name, desc, r)
+        _D[name] = desc_by_name[name] = desc
         ctx.cov["scenarios"].setdefault(name, {"procs": 3, "scripts": {p: " ; ".join(_opstr(o) for o in ops) for p, ops in desc["script"].items()},
                                                "ws": desc["ws"], "jobs0": desc["jobs0"], "pre": desc["pre"]})
         files = sorted(glob.glob(pref + "_*"), key=lambda f: [int(x) for x in re.findall(r"\d+", os.path.basename(f))[-2:]])
-        seen = set()
-        for f in files:
-            states = [s for _, s in tlaparse.parse_sim_file(f)]
-            os.remove(f)
-            key = tuple(s["last"]["p"] for s in states[1:])
-            if key in seen or len(states) < 2:
-                continue
-            seen.add(key)
-            sims.append((name, desc, states))
-        ctx.cov["scenarios"][name]["simulated_schedules"] = len(seen)
+        sims += [(name, f) for f in files]
+        ctx.cov["scenarios"][name]["simulated_behaviours"] = len(files)
     simres = core.pmap(_sim_job, sims, procs=nproc)
     for r in simres:
         ctx.count(key=("sim", r["item"][0], "".join(x[-1] for x in r["schedule"])), traces=1)
     nviol3, ndiv3 = _collect(ctx, desc_by_name, simres, "simulated schedule")
-    ctx.cov["simulated"] = {"schedules": len(simres), "schedules_with_divergence": ndiv3, "violating_observations": nviol3,
+    ctx.cov["simulated"] = {"schedules": len(simres), "distinct_schedules": len({(r["item"][0], tuple(r["schedule"])) for r in simres}), "schedules_with_divergence": ndiv3, "violating_observations": nviol3,
                             "steps_granted": sum(r["steps"] for r in simres)}
     if simres:
         r = simres[0]
@@ -992,7 +1001,79 @@ def run(ctx):
         if base["div"] == [] and not (st["corrupted_expected_label_noticed"] and st["corrupted_expected_tree_noticed"] and st["dropped_step_noticed"]):
             raise core.MachineryError("binding self-test failed: %s" % st)
     ctx.cov["binding_selftest"] = st
+    phase("binding self-test")
+    # ---- audit: the shim gates every path-taking system call of an actor below workspace/ (strace) ---------------
+    ctx.cov["shim_audit"] = shim_audit(ctx)
+    if ctx.cov["shim_audit"].get("identical_sequences") is False:
+        raise core.MachineryError("the shim does not gate every file-system call on contended paths: %s" % ctx.cov["shim_audit"])
+    phase("strace audit of the shim")
     ctx.cov["exhaustive"] = "2 actors: every edge of every scenario graph; 3 actors: invariants exhaustive in TLC, binding sampled"
+
+
+# ------------------------------------------------------------------------------------------------------------
+# audit of the shim: under strace, every path-taking syscall of an actor below workspace/ must be a gated step
+# ------------------------------------------------------------------------------------------------------------
+_AUDIT_SCRIPT = {"scenario": "audit", "script": {"p1": [{"op": "proj", "j": "-", "k": "-", "v": "-"}, {"op": "init", "j": "j1", "k": "-", "v": "-"},
+                                                        {"op": "set", "j": "j1", "k": "a", "v": "1"}, {"op": "get", "j": "j1", "k": "-", "v": "-"},
+                                                        {"op": "set", "j": "j2", "k": "b", "v": "2"}, {"op": "init", "j": "j1", "k": "-", "v": "-"},
+                                                        {"op": "len", "j": "-", "k": "-", "v": "-"}, {"op": "iter", "j": "-", "k": "-", "v": "-"}]},
+                 "ws": False, "jobs": ["j1", "j2"], "jobs0": [], "doc0": {"j1": [], "j2": []}, "hasdoc0": [], "pre": [], "requested": ["j1", "j2"],
+                 "seqdoc": {"j1": [["a", "1"]], "j2": [["b", "2"]]}, "hasdoc": ["j1", "j2"], "wsfinal": True}
+
+
+def _audit_child(out_fn, workdir):
+    """runs in a fresh interpreter under strace: one actor, all its steps granted immediately"""
+    import signac  # noqa
+    desc = _AUDIT_SCRIPT
+    names = Names(desc["jobs"])
+    root = tempfile.mkdtemp(prefix="c12-audit-", dir=workdir)
+    arrange(root, desc, names)
+    prelude, actor = _make_actor(desc["script"], set())
+    with sched.Run(root, {"p1": lambda r, st: actor("p1", r, st)}, _contended, prelude=prelude,
+                   before_start=lambda: os.rmdir(os.path.join(root, "workspace"))) as run:
+        pid = run.actors["p1"].pid
+        run.run_round_robin()
+        trace = [list(lbl) for _, lbl, _ in run.trace]
+        done = run.done("p1")
+    with open(out_fn, "w") as f:
+        json.dump({"pid": pid, "root": os.path.realpath(root), "trace": trace, "ok": bool(done and done.get("ok") and done["result"]["ok"])}, f)
+    shutil.rmtree(root, ignore_errors=True)
+
+
+def shim_audit(ctx):
+    import subprocess
+    import sys
+    if not shutil.which("strace"):
+        return {"skipped": "strace not available"}
+    out_fn, st_fn = os.path.join(ctx.work, "audit.json"), os.path.join(ctx.work, "audit.strace")
+    code = "import sys, logging; logging.disable(logging.CRITICAL); from harness.drivers import c12; c12._audit_child(sys.argv[1], sys.argv[2])"
+    p = subprocess.run(["strace", "-f", "-qq", "-e", "trace=%file", "-o", st_fn, sys.executable, "-c", code, out_fn, ctx.work],
+                       stdout=subprocess.PIPE, stderr=subprocess.STDOUT, timeout=600)
+    if p.returncode != 0 or not os.path.exists(out_fn):
+        return {"skipped": "strace run failed (rc=%s): %s" % (p.returncode, p.stdout.decode("utf-8", "replace")[-300:])}
+    info = json.load(open(out_fn))
+    wsroot = info["root"] + "/workspace"
+    cls = {"newfstatat": "stat", "stat": "stat", "lstat": "stat", "statx": "stat", "openat": "open", "open": "open", "creat": "open", "mkdir": "mkdir",
+           "mkdirat": "mkdir", "rename": "rename", "renameat": "rename", "renameat2": "rename"}
+    sys_seq = []
+    for line in open(st_fn, errors="replace"):
+        m = re.match(r"^(\d+)\s+(\w+)\((.*)$", line)
+        if not m or int(m.group(1)) != info["pid"] or wsroot not in m.group(3):
+            continue
+        paths = [x for x in re.findall(r'"((?:[^"\\]|\\.)*)"', m.group(3)) if x.startswith(wsroot)]
+        sys_seq.append((cls.get(m.group(2), m.group(2)), os.path.relpath(paths[-1], info["root"])))
+    gate_cls = {"stat": "stat", "lstat": "stat", "listdir": "open", "mkdir": "mkdir", "replace": "rename", "rename": "rename"}
+    gated = []
+    for lbl in info["trace"]:
+        op = lbl[0]
+        if op in ("read", "write", "mark"):
+            continue
+        gated.append(("open" if op.startswith("open:") else gate_cls.get(op, op), lbl[-1]))
+    res = {"actor_ok": info["ok"], "path_syscalls_below_workspace": len(sys_seq), "gated_path_steps": len(gated), "identical_sequences": sys_seq == gated}
+    if sys_seq != gated:
+        i = next((k for k, (a, b) in enumerate(zip(sys_seq, gated)) if a != b), min(len(sys_seq), len(gated)))
+        res["first_difference"] = {"index": i, "syscall": sys_seq[i:i + 2], "gated": gated[i:i + 2]}
+    return res
 
 
 def _free_job(item):
